@@ -18,6 +18,7 @@ import (
 	"github.com/cosmos/cosmos-sdk/codec"
 	sdk "github.com/cosmos/cosmos-sdk/types"
 	banktypes "github.com/cosmos/cosmos-sdk/x/bank/types"
+	stakingtypes "github.com/cosmos/cosmos-sdk/x/staking/types"
 	upgradetypes "github.com/cosmos/cosmos-sdk/x/upgrade/types"
 	aoltypes "github.com/medibloc/panacea-core/v2/x/aol/types"
 	burntypes "github.com/medibloc/panacea-core/v2/x/burn/types"
@@ -238,6 +239,11 @@ func (e *twinEnv) mixedOps() []mixedOp {
 		// denom d has no data, denom dx (setup) has: whatever a node decoded last must not leak into what it stores
 		one("TransferDenom(d,A->B)", s(e.A), pnfttypes.NewMsgTransferRequest("d", e.A.Bech, e.B.Bech)),
 		one("UpdateDenom(d,A)", s(e.A), pnfttypes.NewMsgUpdateDenomRequest("d", "", "renamed", "", "", "", "", e.A.Bech)),
+		// a staking operation: fires the distribution / slashing hooks wired into the staking keeper
+		{"Delegate(B->validator,1000umed)", func(w *world.World) world.TxSpec {
+			val := w.App.StakingKeeper.GetAllValidators(w.Ctx())[0]
+			return world.TxSpec{Msgs: []sdk.Msg{stakingtypes.NewMsgDelegate(e.B.Addr, val.GetOperator(), sdk.NewInt64Coin("umed", 1000))}, Signers: s(e.B), Fee: aolFee, Gas: 400000}
+		}},
 	}
 }
 
@@ -590,7 +596,7 @@ var _ = sort.Strings
 func upgradeCases(e *twinEnv, shard, n int) []*histCase {
 	name := app.Upgrades[len(app.Upgrades)-1].UpgradeName
 	var out []*histCase
-	for i, blocks := range [][][]int{{{0}, {2}, {5, 11}}, {{2}, {2}, {2}}, {{11}, {8}, {3}}, {{5}, {6, 7}, {1, 3}}} {
+	for i, blocks := range [][][]int{{{0}, {2}, {5, 11}}, {{2}, {2}, {2}}, {{11}, {8}, {3}}, {{5}, {6, 7}, {1, 3}}, {{14}, {12}, {14, 13}}} {
 		if i%n != shard {
 			continue
 		}
